@@ -27,7 +27,7 @@ ASSUMPTIONS = [
 BUDGET = {"quick": 70, "thorough": 700}
 ROUNDS = {"thorough": 10}
 FLOORS = {"logdet_comparisons": {"quick": 1500, "thorough": 12000}, "inverse_round_trips": {"quick": 1000, "thorough": 8000},
-          "transformed_parameter_calls": 200, "tree_model_calls": 100, "kinds": 13}
+          "transformed_parameter_calls": 200, "tree_model_calls": 100, "tree_model_pre_reads": 3, "kinds": 13}
 
 PLAIN = ["CumSum", "CumSumExp", "SoftPlus", "CumSumSoftPlus", "Log", "TrilExpDiagonal"]
 TORCH = ["Exp", "Sigmoid", "Affine", "AffineParam", "StickBreaking"]
@@ -97,12 +97,23 @@ def _ref_logdet(f, x, stick=False, exact=False):
     return float(torch.linalg.slogdet(J)[1])
 
 
-def _agree(reported, f, x, stick=False):
+def _softplus_allowance(kind, x):
+    """torch.nn.functional.softplus (which both the forward map and the reported Jacobian of the softplus transforms are
+    written with) switches to the identity above its documented threshold of 20, an absolute error of at most
+    exp(-20) = 2.1e-9 per element; the AD derivative does not.  Only elements beyond the threshold get the allowance."""
+    if kind == "SoftPlus":
+        return 2.1e-9 * float((x.abs() > 20).sum())
+    if kind == "CumSumSoftPlus":
+        return 2.1e-9 * float((x.cumsum(-1).abs() > 20).sum())
+    return 0.0
+
+
+def _agree(reported, f, x, stick=False, allowance=0.0):
     """(ok, reference): reported log-det against AD; a disagreement with the float64 LU is re-judged exactly."""
     ref = _ref_logdet(f, x, stick)
     if ref is None:
         return True, None
-    tol = 1e-9 * max(1.0, abs(ref) / 100.0)
+    tol = 1e-9 * max(1.0, abs(ref) / 100.0) + allowance
     if abs(reported - ref) <= tol:
         return True, ref
     ref2 = _ref_logdet(f, x, stick, exact=True)
@@ -133,7 +144,7 @@ def _compare(V, C, kind, tr, x, stick=False, elementwise=False, where="direct", 
     if rep is not None:
         repf = rep.reshape(-1)
         for i in range(rows.shape[0]):
-            ok, ref = _agree(repf[i], lambda v: tr(v), rows[i].clone(), stick)
+            ok, ref = _agree(repf[i], lambda v: tr(v), rows[i].clone(), stick, _softplus_allowance(kind, rows[i]))
             if ref is None:
                 continue
             C["logdet_comparisons"] += 1
@@ -193,6 +204,11 @@ def run_plain(case, V, C):
         x = torch.tensor(rng.normal(0, 1.5, shape))
     else:
         x = torch.tensor(rng.normal(0, 3.0, shape))
+    if kind == "SoftPlus" and rng.random() < 0.35:
+        # the tails of the domain, where softplus is within round-off of 0 (x << 0) or of x (x >> 0): element-wise and
+        # well conditioned in both directions, so the round trip must still return the input
+        x = torch.tensor(np.clip(rng.normal(0, 25.0, shape), -60.0, 60.0))
+        C["tail_points"] = C.get("tail_points", 0) + 1
     if kind == "AffineParam":
         # AffineTransform whose loc is a Parameter object (what the CLI emits for origin = root_height + delta)
         spec = {"id": "tp", "type": "TransformedParameter", "transform": "torch.distributions.AffineTransform",
@@ -244,7 +260,7 @@ def _tp_checks(V, C, kind, tp, dic, x, rng, elementwise, stick):
             continue
         totf = np.asarray(tot).reshape(-1)
         for i in range(rows.shape[0]):
-            ok, ref = _agree(totf[i], lambda v: tr(v), rows[i].clone(), stick)
+            ok, ref = _agree(totf[i], lambda v: tr(v), rows[i].clone(), stick, _softplus_allowance(kind, rows[i]))
             if ref is None:
                 continue
             C["logdet_comparisons"] += 1
@@ -296,7 +312,14 @@ def run_tree(case, V, C):
         _compare(V, C, kind, tr, x, where="direct", extra=extra, inv_tol=inv_tol)
         return
     # through the model: ReparameterizedTimeTreeModel() is the log-Jacobian at the current value, also after an update
+    # what is read before the update: the model itself, or only the heights / branch lengths it derives (the log-Jacobian
+    # cache is then still dirty when the update arrives)
+    pre = int(rng.integers(0, 3))
+    C["tree_model_pre_reads"] = [pre]
     for step in range(2):
+        if step == 0 and pre:
+            _ = tree.node_heights if pre == 1 else tree.branch_lengths()
+            continue
         if step == 1:
             if tc["param"] == "ratio":
                 if n > 2:
